@@ -316,6 +316,36 @@ func runGadget(c GadgetCase, rec *h.Rec) error {
 	accum := 0
 	for round, g := range [][]*big.Int{one, g2} {
 		gct := trivialGadget(params, c, g)
+		// cross-check of the definition against lattigo's own helper (pt = g on a zeroed gadget ciphertext)
+		{
+			rK := params.RingQ().AtLevel(c.KeyLevel)
+			pt, buff := rK.NewPoly(), rK.NewPoly()
+			setPoly(pt, g, c.Chain.Q[:c.KeyLevel+1])
+			rK.NTT(pt, pt)
+			rK.MForm(pt, pt)
+			ref2 := rlwe.NewGadgetCiphertext(params, 1, c.KeyLevel, c.LevelP, c.W)
+			if err := rlwe.AddPolyTimesGadgetVectorToGadgetCiphertext(pt, []rlwe.GadgetCiphertext{*ref2}, *params.RingQP(), buff); err != nil {
+				return h.Failf("C02:gadget-vector:helper-error", "%v", err)
+			}
+			for i := range gct.Value {
+				for j := range gct.Value[i] {
+					for u := 0; u < 2; u++ {
+						if !gct.Value[i][j][u].Equal(&ref2.Value[i][j][u]) {
+							return h.Failf("C02:gadget-vector:helper-differs-from-definition",
+								"rlwe.AddPolyTimesGadgetVectorToGadgetCiphertext(pt, zero gadget ciphertext) at keyLevel=%d levelP=%d w=%d (digits per row %v): entry [row %d][digit %d][%d] is not pt*P*2^(w*%d) on the limbs of row %d and 0 elsewhere; Q=%v",
+								c.KeyLevel, c.LevelP, c.W, gct.BaseTwoDecompositionVectorSize(), i, j, u, j, i, c.Chain.Q[:c.KeyLevel+1])
+						}
+					}
+				}
+			}
+			if d := gct.BaseTwoDecompositionVectorSize(); len(d) > 1 && round == 0 {
+				if d[0] < slicesMax(d) {
+					rec.Class("digit counts differ: first row has fewer")
+				} else if d[0] > slicesMin(d) {
+					rec.Class("digit counts differ: first row has most")
+				}
+			}
+		}
 		accum = 0
 		for i := range gct.Value {
 			if i*maxInt(c.LevelP+1, 1) <= c.LevelQ {
@@ -517,3 +547,21 @@ func maxInt(a, b int) int {
 var propGadget = h.NewProp("TestPropGadgetProduct", h.Budget{Quick: 500, Thorough: 6000}, genGadget, runGadget)
 
 func TestPropGadgetProduct(t *testing.T) { propGadget.Check(t) }
+
+func slicesMax(a []int) int {
+	m := a[0]
+	for _, v := range a {
+		m = maxInt(m, v)
+	}
+	return m
+}
+
+func slicesMin(a []int) int {
+	m := a[0]
+	for _, v := range a {
+		if v < m {
+			m = v
+		}
+	}
+	return m
+}
